@@ -16,21 +16,29 @@ VARIABLES stages,      \* builder.stages: parsed documents not yet merged
           acc,         \* the merged tree so far (stages[0] during flatten)
           phase,       \* "adding" | "merging" | "done" | "failed"
           k,           \* index of the next stage to merge
-          hist, accs   \* history: sources added; acc after each stage
+          hist, accs,  \* history: sources added; acc after each stage
+          built        \* outcome of constructing the Config from the merged tree (config.py:30-52)
 
-vars == <<stages, acc, phase, k, hist, accs>>
+vars == <<stages, acc, phase, k, hist, accs, built>>
 
 Nothing == MkNode("nothing", NoVal, <<>>)
+NotBuilt == [status |-> "none", paths |-> <<>>]
+
+\* config.py:143-151 check_missing: the paths of all !required nodes, in walk order
+RequiredPathsSeq(t) ==
+    SelectSeq(Preorder(t, <<>>), LAMBDA p : p # <<>> /\ At(t, p).k = "required" /\ (Mut("ScanTopLevelOnly") => Len(p) = 1))
+CheckRequired(t) == LET ps == RequiredPathsSeq(t)
+                    IN [status |-> IF ps = <<>> THEN "ok" ELSE "RequiredError", paths |-> ps]
 
 Init == /\ stages = <<>> /\ acc = Nothing /\ phase = "adding" /\ k = 0
-        /\ hist = <<>> /\ accs = <<>>
+        /\ hist = <<>> /\ accs = <<>> /\ built = NotBuilt
 
 \* Builder.add_source: one document of a source added with safe=s
 AddSource(i, sd, s) ==
     /\ phase = "adding" /\ Len(stages) < MaxStages
     /\ stages' = Append(stages, Parse(sd, s))
     /\ hist' = Append(hist, [i |-> i, sd |-> sd, safe |-> s])
-    /\ UNCHANGED <<acc, phase, k, accs>>
+    /\ UNCHANGED <<acc, phase, k, accs, built>>
 
 \* Builder.flatten, first stage: premerge(None) and the !notnew check
 FlattenFirst ==
@@ -39,7 +47,7 @@ FlattenFirst ==
        IN /\ acc' = r /\ accs' = <<r>>
           /\ phase' = IF IsErr(r) THEN "failed" ELSE "merging"
     /\ k' = 2
-    /\ UNCHANGED <<stages, hist>>
+    /\ UNCHANGED <<stages, hist, built>>
 
 \* one iteration of `root = root.ayns.merge(self.stages[i])`
 MergeStage ==
@@ -48,20 +56,27 @@ MergeStage ==
        IN /\ acc' = r /\ accs' = Append(accs, r)
           /\ phase' = IF IsErr(r) THEN "failed" ELSE "merging"
     /\ k' = k + 1
-    /\ UNCHANGED <<stages, hist>>
+    /\ UNCHANGED <<stages, hist, built>>
 
 Finish ==
     /\ phase = "merging" /\ k > Len(stages)
     /\ phase' = "done"
+    /\ UNCHANGED <<stages, acc, k, hist, accs, built>>
+
+\* Config(merged_tree): the !required check comes first; evaluation (AyEval) only after it passed
+Construct ==
+    /\ phase = "done"
+    /\ built' = CheckRequired(acc)
+    /\ phase' = "constructed"
     /\ UNCHANGED <<stages, acc, k, hist, accs>>
 
 StageDocs(n) == LET r == DocRange[IF n <= Len(DocRange) THEN n ELSE Len(DocRange)] IN r[1]..r[2]
 
 Next == \/ \E i \in StageDocs(Len(stages) + 1), s \in SafeFlags : AddSource(i, Docs[i], s)
-        \/ FlattenFirst \/ MergeStage \/ Finish
+        \/ FlattenFirst \/ MergeStage \/ Finish \/ Construct
 
 Spec == Init /\ [][Next]_vars
 
-Terminal == phase \in {"done", "failed"}
+Terminal == phase \in {"constructed", "failed"}
 
 =============================================================================
